@@ -977,6 +977,72 @@ def format (m : FmtMode) (srcWritable : Bool) (controller : List CStep) (fmtStep
     (diffExists : Bool) (io : FmtIO) : Outcome :=
   (formatFull m srcWritable controller fmtStep diffExists io).1
 
+/-! ### `buf format -w` at the level of file contents
+
+The rewrite step of the `-w` modes, as coded: the changed paths of the diff are walked in path
+order; each one is opened with `os.OpenFile(externalPath, O_WRONLY|O_CREATE|O_TRUNC, 0644)` and the
+formatted text written into it.  A symbolic link is followed by the open (the link stays a link,
+its target holds the new text), a read-only file fails the open for a non-root user; the first
+failing open ends the walk with its error — the files before it are rewritten, the files after
+it are not.  The formatter itself is a parameter (`WFile.fmt` is its output, C07 owns it). -/
+
+/-- a `.proto` file as `buf format` sees it -/
+structure WFile where
+  path : Str
+  /-- what the file holds before the run -/
+  orig : Str
+  /-- the formatter's output for `orig` (`none`: it does not parse) -/
+  fmt : Option Str
+  /-- selected by the input / `--path` / `--exclude-path` -/
+  target : Bool
+  /-- the open for writing succeeds -/
+  openable : Bool
+deriving DecidableEq, Repr
+
+/-- the file is among the changed paths of the diff: targeted, and the formatter's text differs -/
+def WFile.changed (f : WFile) : Bool :=
+  f.target && (match f.fmt with
+    | some t => t != f.orig
+    | none => false)
+
+/-- what the file is to hold after a `-w` run that did not fail -/
+def WFile.want (f : WFile) : Str :=
+  if f.target then f.fmt.getD f.orig else f.orig
+
+/-- FormatBucket succeeds: every targeted file parses -/
+def fmtStepOk (fs : List WFile) : Bool := fs.all fun f => !f.target || f.fmt.isSome
+
+/-- open with O_TRUNC, write `new`: the file holds exactly `new` -/
+def writeTrunc (_old new : Str) : Str := new
+
+/-- open WITHOUT O_TRUNC, write `new` from offset 0: what the old content had beyond the length
+    of `new` stays behind it (lengths in characters here, bytes in the file; only used for the
+    counterexample) -/
+def writeOver (old new : Str) : Str := new ++ old.drop new.length
+
+def untouched (fs : List WFile) : List (Str × Str) := fs.map fun g => (g.path, g.orig)
+
+/-- the rewrite walk (the list is in path order), parameterised by what a write does.
+    Result: (path, content) afterwards, and whether the walk ended with an error. -/
+def rewriteWalk (wr : Str → Str → Str) : List WFile → List (Str × Str) × Bool
+  | [] => ([], false)
+  | f :: rest =>
+    if f.changed then
+      if f.openable then
+        ((f.path, wr f.orig (f.fmt.getD f.orig)) :: (rewriteWalk wr rest).1, (rewriteWalk wr rest).2)
+      else ((f.path, f.orig) :: untouched rest, true)
+    else ((f.path, f.orig) :: (rewriteWalk wr rest).1, (rewriteWalk wr rest).2)
+
+/-- `buf format -w`: (contents afterwards, the run failed, a difference existed) -/
+def formatWrite (fs : List WFile) : List (Str × Str) × Bool × Bool :=
+  if fmtStepOk fs then
+    ((rewriteWalk writeTrunc fs).1, (rewriteWalk writeTrunc fs).2, fs.any (·.changed))
+  else (untouched fs, true, false)
+
+/-- the files as the NEXT run sees them (`F` = the formatter) -/
+def nextRun (F : Str → Option Str) (fs : List WFile) : List WFile :=
+  fs.map fun f => { f with orig := f.want, fmt := F f.want }
+
 /-- The four commands of the property with the abstract results of their steps, and `buf dep
     graph` — the command that reaches `ModuleDeps()` and with it the ImportNotExistError of a
     `.proto` file importing a file that does not exist (build / lint / breaking / format get a
@@ -988,6 +1054,10 @@ inductive Cmd where
   | format (mode : FmtMode) (srcWritable : Bool) (controller : List CStep) (fmtStep : Step)
       (diffExists : Bool) (io : FmtIO)
   | depGraph (steps : List CStep)
+  /-- `buf ls-files`: NewController directly, GetImportableImageFileInfos in a controller method
+      (the pre-compile scan for `file.proto#include_package_files=true` happens in there: a
+      syntax error in a header statement arrives as an annotation set), the listing directly -/
+  | lsFiles (steps : List CStep)
 deriving Repr
 
 def Cmd.run : Cmd → Outcome
@@ -996,6 +1066,7 @@ def Cmd.run : Cmd → Outcome
   | .build c => BufModel.Annot.build c
   | .format m sw c f d io => BufModel.Annot.format m sw c f d io
   | .depGraph c => BufModel.Annot.build c
+  | .lsFiles c => BufModel.Annot.build c
 
 /-- every error a step of the command can return -/
 def Cmd.stepErrs : Cmd → List GoErr
@@ -1004,6 +1075,7 @@ def Cmd.stepErrs : Cmd → List GoErr
   | .build c => (c.map (·.2)).filterMap id
   | .format _ _ c f _ io => (c.map (·.2) ++ [f, io.copyDiff, io.rewrite, io.output]).filterMap id
   | .depGraph c => (c.map (·.2)).filterMap id
+  | .lsFiles c => (c.map (·.2)).filterMap id
 
 /-- the `wasmRuntime.Close` error joined to the result of lint / breaking -/
 def Cmd.closeErr : Cmd → Step
